@@ -70,6 +70,8 @@ def _replay(ctx):
     parsed = [(a, b) for a, b in (_parse_actions([x])[0] if _parse_actions([x]) else (None, None) for x in acts) if a] if acts and isinstance(acts[0], str) \
         else [tuple(a) for a in acts]
     t = str(rec.get("id", "COAP")).split("-")[0]
+    if t == "BLEREQ":
+        return _replay_blereq(ctx, whole, rec)
     t = t if t in ("IP", "BLE", "COAP") else "COAP"
     loop = asyncio.new_event_loop()
     asyncio.set_event_loop(loop)
@@ -93,6 +95,28 @@ def _replay(ctx):
     finally:
         loop.close()
         asyncio.set_event_loop(None)
+
+
+def _replay_blereq(ctx, whole, rec):
+    """Re-execute the stored request-level BLE history (same seed => same transactions) and validate the fresh trace."""
+    from harness import c06_driver as D
+    i = int(str(rec["id"]).split("-")[1])
+    loop = asyncio.new_event_loop()
+    asyncio.set_event_loop(loop)
+    try:
+        r = loop.run_until_complete(D.drive_ble_requests(random.Random(int(whole.get("seed", ctx.seed)) * 15485863 + i), 12))
+    finally:
+        loop.close()
+        asyncio.set_event_loop(None)
+    fresh = {"id": rec["id"], "events": r.events}
+    ctx.rule = "replay of one stored BLE request-level history on the tree under test"
+    ctx.case(json.dumps(r.events))
+    ctx.sample({"replayed_events": r.events[:30]})
+    for pr in r.problems[:3]:
+        ctx.violation(f"BLE request level: {pr}", fresh)
+    for j in tracecheck.validate(ctx, "session/SessionCounters_Trace", "SessionCounters_Trace_BLE.cfg", [fresh], label="replay"):
+        ctx.violation(f"replayed BLE request-level execution is not a behaviour of SessionCounters: "
+                      + (f"invariant {j['invariant']} violated" if j.get("invariant") else f"event #{j['maxl']} {j['event']} cannot be explained"), fresh)
 
 
 def _replay_ble_pairing(ctx, whole, rec):
@@ -250,6 +274,23 @@ def run(ctx):
                 ctx.violation(f"{t} execution {j['record']['id'] if j.get('record') else '?'} is not a behaviour of SessionCounters: "
                               + (f"invariant {j['invariant']} violated" if j.get("invariant") else f"event #{j['maxl']} {j['event']} cannot be explained"),
                               {"record": j.get("record"), "position": j.get("maxl"), "last_matched_state": j.get("last_state")})
+        # BLE at request level: the real ble_request / _write_pdu / _read_pdu between real key objects and a conformant
+        # accessory, with refused writes (at the first or a later fragment), lost, replayed and corrupted response fragments
+        breq = []
+        for i in range(ctx.pick(200, 2500)):
+            r = loop.run_until_complete(D.drive_ble_requests(random.Random(ctx.seed * 15485863 + i), 12))
+            rec = {"id": f"BLEREQ-{i}", "events": r.events}
+            breq.append(rec)
+            ctx.case(json.dumps(r.events) if any(e["ev"] == "deliver" for e in r.events) else None)
+            for pr in r.problems[:3]:
+                ctx.violation(f"BLE request level: {pr}", rec)
+        rej = tracecheck.validate(ctx, "session/SessionCounters_Trace", "SessionCounters_Trace_BLE.cfg", breq,
+                                  label=f"trace validation BLE request level ({len(breq)} executions)")
+        for j in rej:
+            ctx.violation(f"BLE request-level execution {j['record']['id'] if j.get('record') else '?'} is not a behaviour of SessionCounters: "
+                          + (f"invariant {j['invariant']} violated" if j.get("invariant") else f"event #{j['maxl']} {j['event']} cannot be explained"),
+                          {"record": j.get("record"), "position": j.get("maxl"), "last_matched_state": j.get("last_state")})
+        ctx.notes["ble_request_level_executions"] = len(breq)
         _ble_pairing_level(ctx)
         # CoAP: first without the deviations; what is rejected must be explained by a listed deviation
         rej = tracecheck.validate(ctx, "session/SessionCounters_Trace", "SessionCounters_Trace_COAP_forward.cfg", recs["COAP"],
